@@ -5,6 +5,7 @@ package cmd
 
 import (
 	"fmt"
+	"github.com/microsoft/yardl/tooling/internal/validation"
 	"github.com/microsoft/yardl/tooling/internal/verifhook"
 	"os"
 
@@ -79,7 +80,7 @@ func validatePackage(packageInfo *packaging.PackageInfo) (*dsl.Environment, []st
 	for _, version := range packageInfo.Versions {
 		for _, label := range labels {
 			if label == version.Label {
-				return env, nil, fmt.Errorf("duplicate predecessor label %s", version.Label)
+				return env, nil, validation.NewValidationError(fmt.Errorf("duplicate predecessor label %s", version.Label), packageInfo.FilePath)
 			}
 		}
 		labels = append(labels, version.Label)
